@@ -199,7 +199,9 @@ def version_tags(F, S):
         fn = F.fn(ep, nparams=np_, pred=pred)
         eng = Engine(F, S)
         ex = eng.analyze(fn, frozenset()) or frozenset()
-        rv = [nd for nd in fn.nodes if nd["k"] in CALLS and nd.get("fname") == "ReadVersionTag"]
+        # (the tail of the entry point may have been moved into a helper: the calls are counted where they stand)
+        from ..through import find_calls
+        rv = find_calls(F, fn, lambda nd: nd.get("fname") == "ReadVersionTag")
         inst = "%s#version-tags" % ep
         if len(rv) == 2 and ("ev", "called", M + "::CheckMinVersionTag") in ex and ("ev", "called", M + "::ReadMapBeginning") in ex:
             out.append(ok("R-MUSTCALL", inst, fn.loc(fn.body), fn.qn, "the header tag and both later version tags are checked on every returning path", "ReadMapBeginning + 2 x ReadVersionTag"))
@@ -309,8 +311,29 @@ def saved_game_same_map(F, S):
                         if it[0] == "call" and it[1] == M + "::ReadMapBeginning":
                             mv = ("var", d["n"], d["d"])
         stores = [nd for nd in fn.nodes if is_store(nd) and mv is not None and fn.term(fn.kids(nd["id"])[0])[0] == "mem" and fn.term(fn.kids(nd["id"])[0])[1] == mv]
-        passed = [nd for nd in fn.nodes if nd["k"] in CALLS and mv is not None and any(fn.term(a) == mv for a in nd.get("args", []))
-                  and any(p.get("ref") and not p.get("const_ref") for p in nd.get("params", []))]
+        def mutable_passes(f, v, depth=2):
+            """Calls in f that hand variable v on by non-const reference, looked through private helpers of the class that
+            only hand it on in turn (and store nothing into it themselves)."""
+            res = []
+            for nd in f.nodes:
+                if nd["k"] not in CALLS:
+                    continue
+                ps = nd.get("params", [])
+                for i_, a_ in enumerate(nd.get("args", [])):
+                    if f.term(a_) != v or i_ >= len(ps) or not (ps[i_].get("ref") and not ps[i_].get("const_ref")):
+                        continue
+                    cals = [c_ for c_ in F.callees(nd) if c_.cfg and c_.cls == M and i_ < len(c_.params)]
+                    if depth > 0 and len(cals) == 1 and nd.get("fname") not in ("ReadTileGroups",):
+                        h = cals[0]
+                        hv = ("var", h.params[i_]["n"], h.params[i_]["d"])
+                        hst = [x for x in h.nodes if is_store(x) and h.term(h.kids(x["id"])[0])[0] == "mem" and h.term(h.kids(x["id"])[0])[1] == hv]
+                        inner = mutable_passes(h, hv, depth - 1)
+                        if not hst and all(x.get("fname") != nd.get("fname") for x in inner):
+                            res += inner
+                            continue
+                    res.append(nd)
+            return res
+        passed = mutable_passes(fn, mv) if mv is not None else []
         rets = returns(fn)
         inst = "%s#map-from-beginning" % ep
         req = "the returned map is the one ReadMapBeginning produced; the entry point stores nothing into it directly"
